@@ -14,6 +14,8 @@ thread_local! {
     static LAST: RefCell<Option<PanicRec>> = RefCell::new(None);
 }
 
+pub static LAST_GLOBAL: std::sync::Mutex<Option<String>> = std::sync::Mutex::new(None);
+
 pub fn install_hook() {
     panic::set_hook(Box::new(|info| {
         let (file, line) = info
@@ -27,6 +29,50 @@ pub fn install_hook() {
         } else {
             "<non-string panic payload>".to_string()
         };
+        if let Ok(mut g) = LAST_GLOBAL.try_lock() {
+            *g = Some(format!("{}:{} {}", file, line, msg));
+        }
+        // Panics raised inside std/core or a dependency (e.g. `abs()` overflow, slice index
+        // helpers without #[track_caller]) carry a location outside allsorts: find the
+        // innermost allsorts frame so that the site identifies the library code at fault.
+        let mut file = file;
+        let mut line = line;
+        if !file.contains("/repo/src/") && !file.starts_with("src/") {
+            let bt = std::backtrace::Backtrace::force_capture().to_string();
+            let mut frame_fn: Option<String> = None;
+            let mut lines = bt.lines().peekable();
+            while let Some(l) = lines.next() {
+                let t = l.trim();
+                if let Some(pos) = t.find(": ") {
+                    let name = &t[pos + 2..];
+                    if name.starts_with("allsorts::") || name.starts_with("<allsorts::") {
+                        frame_fn = Some(name.to_string());
+                        if let Some(next) = lines.peek() {
+                            let n = next.trim();
+                            if let Some(rest) = n.strip_prefix("at ") {
+                                // "at /repo/src/x.rs:LINE:COL"
+                                let mut parts = rest.rsplitn(3, ':');
+                                let _col = parts.next();
+                                let ln = parts.next().and_then(|x| x.parse::<u32>().ok());
+                                let f = parts.next();
+                                if let (Some(ln), Some(f)) = (ln, f) {
+                                    if f.contains("/repo/src/") {
+                                        file = f.to_string();
+                                        line = ln;
+                                    }
+                                }
+                            }
+                        }
+                        break;
+                    }
+                }
+            }
+            if !file.contains("/repo/src/") {
+                if let Some(f) = frame_fn {
+                    file = format!("{}@{}", file, f);
+                }
+            }
+        }
         LAST.with(|l| *l.borrow_mut() = Some(PanicRec { file, line, msg }));
     }));
 }
